@@ -284,6 +284,7 @@ def kit_events():
         {"op": "add_slide", "layout": 6},
         dict(box, op="add_shape", type="ROUNDED_RECTANGLE"),                # 0 autoshape with one adjustment (non-zero default)
         dict(box, op="add_shape", type="CHEVRON"),                          # 1 second autoshape (gradient / pattern host)
+        dict(box, op="add_shape", type="ROUNDED_RECTANGLE", x=3000000),     # 2 a second shape of the SAME preset: never assigned unless as a peer
         dict(box, op="add_connector", type="STRAIGHT", ex=50000, ey=40000),  # flipped in both axes (begin > end)
         dict(box, op="add_connector", type="ELBOW", x=10, y=20, ex=900000, ey=700000),
         dict(box, op="add_textbox", text="para one\npara two"),
@@ -294,7 +295,7 @@ def kit_events():
     ]
 
 
-KIT_SHAPES = 11  # shapes the kit preamble appends to slide 0 (2 autoshapes, 2 connectors, text box, picture, table, 4 charts)
+KIT_SHAPES = 12  # shapes the kit preamble appends to slide 0 (3 autoshapes, 2 connectors, text box, picture, table, 4 charts)
 
 
 def _shape_of(sl, pred, i=0):
@@ -334,8 +335,12 @@ def locate(prs, obj, a):
     if obj == "shape":
         return _shape_of(sl, auto, a.get("i", 0))
     if obj == "adj":
-        sh = _shape_of(sl, lambda s: auto(s) and len(s.adjustments) > 0)
-        return sh.adjustments
+        def rr(s):
+            try:
+                return auto(s) and len(s.adjustments) > 0 and (a.get("i", 0) >= 2 or s.auto_shape_type.name == "ROUNDED_RECTANGLE")
+            except ValueError:
+                return False
+        return _shape_of(sl, rr, a.get("i", 0)).adjustments
     if obj == "cxn":
         return _shape_of(sl, lambda s: type(s).__name__ == "Connector", a.get("i", 0))
     if obj == "pic":
@@ -531,7 +536,7 @@ def g_set(r):
     else:
         v = e["good"](r) if callable(e["good"]) else r.choice(e["good"])
     i = r.randint(0, 1)
-    if e["obj"] in ("shape", "pic", "tf", "p", "font", "cxn") and r.random() < 0.3:
+    if e["obj"] in ("shape", "pic", "tf", "p", "font", "cxn", "adj") and r.random() < 0.3:
         i = r.randint(2, 5)   # an object the start deck brought along, when there is one
     return {"entry": eid, "v": v, "kind": kind, "slide": 0, "i": i}
 
@@ -554,9 +559,11 @@ def _set(w, deck, a):
         v = dec(a["v"])
     except (ValueError, KeyError, AttributeError):
         raise O.Skip("value spec not decodable here")
-    key = "%s|%d" % (a["entry"], a.get("i", 0) if e["obj"] in ("shape", "p", "font", "cell", "col", "row", "barseries", "lineseries", "marker", "gradstop", "cxn", "dlbl", "runlink", "clicklink", "tf", "pic") else 0)
+    key = "%s|%d" % (a["entry"], a.get("i", 0) if e["obj"] in ("shape", "p", "font", "cell", "col", "row", "barseries", "lineseries", "marker", "gradstop", "cxn", "dlbl", "runlink", "clicklink", "tf", "pic", "adj") else 0)
     before_self = norm(sget(o, e))
     others = read_all(o, e["obj"], e["group"])
+    peer_a = _peer_args(deck.prs, e, a)
+    peer_before = _peer_reading(deck.prs, e, peer_a)
     try:
         setv(o, e, v)
         raised = None
@@ -608,6 +615,13 @@ def _set(w, deck, a):
     if others2 != others:
         ch = sorted(k for k in others if others[k] != others2.get(k))
         w.report("frame|%s-changes-%s" % (a["entry"], ch[0]), "assigned %r; changed readings: %r" % (v, {k: (others[k], others2.get(k)) for k in ch}), CLAUSES["frame"])
+    peer_after = _peer_reading(deck.prs, e, peer_a)
+    if peer_after != peer_before:
+        ch = sorted(k for k in peer_before if peer_before[k] != peer_after.get(k))
+        w.report("frame|other-object-of-the-same-kind-changed|%s-changes-%s" % (a["entry"], ch[0] if ch else "?"),
+                 "assigned %r on object %d; readings of object %d changed: %r" % (v, a.get("i", 0), peer_a["i"], {k: (peer_before[k], peer_after.get(k)) for k in ch}), CLAUSES["frame"])
+    if peer_a is not None:
+        w.stats.hit("c09_peer_object_frames")
     _memo(deck)["vals"][key] = {"entry": a["entry"], "i": a.get("i", 0), "slide": a.get("slide", 0), "want": norm(want), "spec": a["v"]}
     # members of the same dependency group are no longer predictable; a container switch (has_legend, has_data_labels)
     # invalidates what was recorded about the container's own properties, and navigating to a container that had to
@@ -620,6 +634,8 @@ def _set(w, deck, a):
         pre = INVALIDATES.get(a["entry"])
         if k != key and (ent2["group"] == e["group"] or (pre and eid2.startswith(pre)) or SWITCH_OF.get(e["obj"]) == eid2):
             del _memo(deck)["vals"][k]
+    # everything recorded about OTHER objects and properties still reads as recorded, right now (not only at the next checkpoint)
+    verify_all(w, deck, deck.prs, "after-assignment-elsewhere", skip=key)
     w.stats.hit("c09_sets")
     w.stats.hit("c09_entry_" + a["entry"])
     if v is None:
@@ -641,9 +657,39 @@ def _set_unjudged(w, deck, a, e):
     w.stats.hit("catalog_sets")
 
 
-def verify_all(w, deck, prs, when):
+PEERABLE = ("shape", "adj", "cxn", "cell", "col", "row", "barseries", "lineseries", "marker", "gradstop", "dlbl", "clicklink", "p", "font", "runlink")
+
+
+def _peer_args(prs, e, a):
+    """Locator of ANOTHER object of the same kind (kit objects 0 and 1 are distinct objects for these kinds), or None."""
+    i = a.get("i", 0)
+    if e["obj"] not in PEERABLE or i >= 2:
+        return None
+    pa = dict(a, i=1 - i)
+    if e["obj"] in ("p", "font", "runlink"):
+        try:
+            if len(locate(prs, "tf", a).paragraphs) < 2:
+                return None
+        except O.Skip:
+            return None
+    return pa
+
+
+def _peer_reading(prs, e, pa):
+    if pa is None:
+        return {}
+    try:
+        o2 = locate(prs, e["obj"], pa)
+    except O.Skip:
+        return {}
+    return read_all(o2, e["obj"], None)
+
+
+def verify_all(w, deck, prs, when, skip=None):
     build_catalog()
     for key, m in sorted(_memo(deck)["vals"].items()):
+        if key == skip:
+            continue
         e = CAT[m["entry"]]
         try:
             o = locate(prs, e["obj"], m)
@@ -732,6 +778,27 @@ def pinned_traces(tier):
             evs.append({"op": "c09.set", "entry": eid, "v": v, "kind": "bad", "slide": 0, "i": 0})
         evs += [{"op": "checkpoint", "sink": "seekable"}, {"op": "restart"}]
         out.append({"property": ID, "seed": "entry-%s" % eid, "tier": "pinned", "config": {"pinned": True}, "start": [{"deck": "default"}], "events": evs})
+    # two objects given exactly the same value, then one of them changed: the other keeps it (shared relationship / shared defaults)
+    X, Y, Z = S("http://example.com/"), S("https://a.b/c?d=e&f=g"), S("mailto:x@y.z")
+    NONE_ = {"k": "none"}
+    for eid in ("runlink.address", "clicklink.address"):
+        for second in (NONE_, Y):
+            evs = list(kit_events())
+            for i, v in ((0, X), (1, X), (0, second)):
+                evs.append({"op": "c09.set", "entry": eid, "v": v, "kind": "good", "slide": 0, "i": i})
+            other = "clicklink.address" if eid.startswith("run") else "runlink.address"
+            evs += [{"op": "c09.set", "entry": other, "v": Z, "kind": "good", "slide": 0, "i": 0},
+                    {"op": "c09.set", "entry": eid, "v": X, "kind": "good", "slide": 0, "i": 0},
+                    {"op": "c09.set", "entry": eid, "v": NONE_, "kind": "good", "slide": 0, "i": 1},
+                    {"op": "c09.set", "entry": other, "v": Y, "kind": "good", "slide": 0, "i": 1},
+                    {"op": "checkpoint", "sink": "seekable"}, {"op": "restart"}]
+            out.append({"property": ID, "seed": "shared-url-%s-%s" % (eid, second["k"]), "tier": "pinned", "config": {"pinned": True}, "start": [{"deck": "default"}], "events": evs})
+    evs = list(kit_events())
+    for i, v in ((0, F(0.4)), (1, F(0.1)), (0, F(0.0)), (1, F(0.16667))):
+        evs.append({"op": "c09.set", "entry": "adj.value", "v": v, "kind": "good", "slide": 0, "i": i})
+        evs.append({"op": "reopen", "sink": "seekable", "form": "stream"})
+    evs += [{"op": "checkpoint", "sink": "seekable"}, {"op": "restart"}]
+    out.append({"property": ID, "seed": "two-shapes-of-one-preset", "tier": "pinned", "config": {"pinned": True}, "start": [{"deck": "default"}], "events": evs})
     return out
 
 
